@@ -15,7 +15,7 @@ import re
 BUILTIN = {'_Bool', 'char', 'signed char', 'unsigned char', 'short', 'unsigned short', 'int',
            'uint32_t', 'int64_t', 'uint64_t', 'float', 'double', 'long double', 'void',
            'str_t', 'mutex_t', 'lock_t', 'exc_t', 'function_t', 'lambda_t', 'thread_t',
-           'condvar_t', 'nullopt_t', 'nullptr_t', 'tp_t', 'dur_ns_t', 'dur_s_t', 'dur_ms_t',
+           'condvar_t', 'log_t', 'nullopt_t', 'nullptr_t', 'tp_t', 'dur_ns_t', 'dur_s_t', 'dur_ms_t',
            'dur_us_t', 'hnd_t'}
 
 
@@ -158,6 +158,9 @@ class Library:
             f[n + '__op_ne'] = 'static inline _Bool %s__op_ne(%s a, %s b) { return !(a.has == b.has && (!a.has || a.val == b.val)); }' % (n, ct, ct)
             f[n + '__op_eq__' + S(e)] = 'static inline _Bool %s__op_eq__%s(%s a, %s b) { return a.has && a.val == b; }' % (n, S(e), ct, e)
             f[n + '__op_ne__' + S(e)] = 'static inline _Bool %s__op_ne__%s(%s a, %s b) { return !(a.has && a.val == b); }' % (n, S(e), ct, e)
+        if e == 'tp_t':
+            f[n + '__op_lt__tp_t'] = 'static inline _Bool %s__op_lt__tp_t(%s o, tp_t v) { return !o.has || TP_LT(o.val, v); }' % (n, ct)
+            f[n + '__op_gt__tp_t'] = 'static inline _Bool %s__op_gt__tp_t(%s o, tp_t v) { return o.has && TP_LT(v, o.val); }' % (n, ct)
         if ek == 'scalar':
             # optional<T> ordering: nullopt is less than any value
             f[n + '__op_lt'] = 'static inline _Bool %s__op_lt(%s a, %s b) { return b.has && (!a.has || a.val < b.val); }' % (n, ct, ct)
@@ -180,6 +183,7 @@ class Library:
             f[n + '__value'] = ('static inline %s %s__value(%s m) { __CPROVER_assert(m.ok, "UB: SystemMaybe::value() '
                                 'while holding an error"); return m.val; }' % (e, n, ct))
             f[n + '__from__' + S(e)] = 'static inline %s %s__from__%s(%s v) { %s m; m.ok = 1; m.val = v; m.err = 0; return m; }' % (ct, n, S(e), e, ct)
+        f[n + '__from__exc_t'] = 'static inline %s %s__from__exc_t(exc_t e) { %s m; m.ok = 0; m.err = e; return m; }' % (ct, n, ct)
         f[n + '__error'] = ('static inline int %s__error(%s m) { __CPROVER_assert(!m.ok, "UB: SystemMaybe::error() '
                             'while holding a value"); return m.err; }' % (n, ct))
         return f
@@ -188,8 +192,8 @@ class Library:
     def vec(self, n, ct, e):
         it = n.replace('vec_', 'vecit_', 1).replace('deq_', 'deqit_', 1)
         f = {}
-        f[n + '__elem'] = ('%s %s__elem(uint64_t vid, uint64_t i)\n  __CPROVER_assigns()\n  __CPROVER_ensures(1);' % (e, n))
-        f[n + '__ctor0'] = '%s %s__ctor0(void)\n  __CPROVER_assigns()\n  __CPROVER_ensures(__CPROVER_return_value.n == 0);' % (ct, n)
+        f[n + '__elem'] = ('static inline %s %s__elem(uint64_t vid, uint64_t i) { %s x; return x; }   /* abstract content: any value */' % (e, n, e))
+        f[n + '__ctor0'] = 'static inline %s %s__ctor0(void) { %s v; v.n = 0; return v; }' % (ct, n, ct)
         f[n + '__size'] = 'static inline uint64_t %s__size(%s v) { return v.n; }' % (n, ct)
         f[n + '__empty'] = 'static inline _Bool %s__empty(%s v) { return v.n == 0; }' % (n, ct)
         f[n + '__begin'] = 'static inline %s %s__begin(%s v) { %s it; it.vid = v.vid; it.i = 0; it.n = v.n; return it; }' % (it, n, ct, it)
@@ -322,6 +326,8 @@ class Library:
 
     def misc(self):
         f = {}
+        f['systemError__int'] = 'static inline exc_t systemError__int(int code) { return (exc_t)EXC_system_error; }'
+        f['systemError__exc_t'] = 'static inline exc_t systemError__exc_t(exc_t e) { return (exc_t)EXC_system_error; }'
         f['str_t__ctor0'] = 'static inline str_t str_t__ctor0(void) { return STR_EMPTY; }'
         f['str_t__empty'] = 'static inline _Bool str_t__empty(str_t s) { return s == STR_EMPTY; }'
         f['str_t__op_eq'] = 'static inline _Bool str_t__op_eq(str_t a, str_t b) { return a == b; }'
